@@ -112,10 +112,57 @@ def install_fn_renames(m):
     _norm_cache.clear()
 
 
+_IMPL_HEAD = re.compile(r'^((?:[a-z_][A-Za-z0-9_]*::)+)<impl ')
+
+
+def canon_impl_path(s):
+    """`m::<impl Trait<..> for Type>::f` -> `<Type as Trait<..>>::f`, `m::<impl Type>::f` -> `Type::f`: rustc prints the
+    first form when an impl block lives in a module that defines neither the type nor the trait, so MOVING an impl
+    block would rename every function in it (and two impls moved into one module would collide after `<impl ..>` is
+    dropped). The pyo3 glue is left as it is (its generated items nest several such segments)."""
+    m = _IMPL_HEAD.match(s)
+    if not m or '::python::' in m.group(1) or m.group(1).split('::', 1)[0] not in (
+            'track', 'trackers', 'utils', 'distance', 'prelude', 'examples'):
+        return s
+    i = m.end() - len('<impl ')
+    depth = 0
+    j = i
+    while j < len(s):
+        ch = s[j]
+        if ch == '<':
+            depth += 1
+        elif ch == '>' and s[j - 1] != '-':
+            depth -= 1
+            if depth == 0:
+                break
+        j += 1
+    inner = s[i + len('<impl '):j]
+    rest = s[j + 1:]
+    if '<impl ' in rest or not rest.startswith('::'):
+        return s
+    # split `Trait for Type` at the top-level ` for `
+    depth = 0
+    k = 0
+    cut = None
+    while k < len(inner):
+        ch = inner[k]
+        if ch in '<([':
+            depth += 1
+        elif ch in '>)]' and inner[k - 1] != '-':
+            depth -= 1
+        elif depth == 0 and inner.startswith(' for ', k):
+            cut = k
+            break
+        k += 1
+    if cut is None:
+        return inner + rest
+    return '<%s as %s>%s' % (inner[cut + 5:], inner[:cut], rest)
+
+
 def norm(s):
     r = _norm_cache.get(s)
     if r is None:
-        r = s
+        r = canon_impl_path(s)
         for rx, rep in _RELOC:
             r = rx.sub(rep, r)
         r = strip_generics(r)
@@ -149,7 +196,8 @@ def proj_key(p):
     if 'cidx' in p:
         return ('cidx', p['cidx'], p['from_end'])
     if 'sub' in p:
-        return ('sub',)
+        sb = p['sub'] if isinstance(p['sub'], list) else [None, None]
+        return ('sub', sb[0], sb[1], bool(p.get('from_end')))
     if 'dc' in p:
         return ('dc', p['dc'])
     return ('?',)
@@ -178,6 +226,9 @@ def proj_name(pk):
         return '[%s]' % pk[1]
     if pk[0] == 'cidx':
         return '[%d]' % pk[1]
+    if pk[0] == 'sub' and len(pk) == 4:
+        # `[a, rest @ ..]`: rest = slice[1..len-0]
+        return '[%s..%s]' % (pk[1], ('-%s' % pk[2]) if pk[3] else pk[2])
     return '?'
 
 
